@@ -50,6 +50,9 @@ import Driver.Util
     rangecoder oframe <max_data_bytes> <fill> <bandwidth> <nCh> <ms10> <flags> <records>
         (harness/c08_silkpacket.c mode `oframe`: the real opus_encode forced to SILK-only; records as in `spacket`)
       answer:  P <hex payload> F <rangeFinal>   (OpusModel.OpusFrameEnc.silkOnlyFrame; caller buffer byte j = (fill+37j)%256)
+    rangecoder oframer <max_data_bytes> <fill> <bandwidth> <nCh> <ms10> <flags> <records> <celt_to_silk> <hex R> <redundant_rng>
+        (same, for packets to which the real encoder appended a 5 ms redundancy frame: its bytes R and final range are inputs)
+      answer:  P <hex payload> F <rangeFinal>   (OpusModel.OpusFrameEnc.silkRedFrame)
 
     rangecoder tf <l> <rlo> <n> <low> <nbits>
         ec_tell / ec_tell_frac for rng = (r << (l-16)) + (low ? 2^(l-16)-1 : 0), r = rlo..rlo+n-1,
@@ -255,7 +258,20 @@ def runOframe (maxData fill bw nCh ms10 : Nat) (pk : SilkSymsEnc.PacketIn) : Str
   let f := OpusFrameEnc.silkOnlyFrame buf maxData (OpusFrameEnc.silkCfg bw nCh ms10) pk
   s!"P {toHex f.payload} F {f.rangeFinal}"
 
+def runOframeR (maxData fill bw nCh ms10 : Nat) (pk : SilkSymsEnc.PacketIn) (c2s : Nat) (R : Bytes) (rr : Nat) : String :=
+  let buf := (List.range (maxData - 1)).map (fun j => (fill + 37 * j) % 256)
+  let f := OpusFrameEnc.silkRedFrame buf maxData (OpusFrameEnc.silkCfg bw nCh ms10) pk c2s R rr
+  s!"P {toHex f.payload} F {f.rangeFinal}"
+
 def handle : List String → String
+  | ["oframer", maxData, fill, bw, nCh, ms10, flags, recs, c2s, r, rr] =>
+    match parseNat maxData, parseNat fill, parseNat bw, parseNat nCh, parseNat ms10, parseNat flags with
+    | some maxData, some fill, some bw, some nCh, some ms10, some flags =>
+      match parsePacket nCh (OpusFrameEnc.silkCfg bw nCh ms10).nfpp flags (if recs = "-" then [] else recs.splitOn ";"),
+            parseNat c2s, parseHex r, parseNat rr with
+      | some pk, some c2s, some r, some rr => runOframeR maxData fill bw nCh ms10 pk c2s r rr
+      | _, _, _, _ => "bad-op"
+    | _, _, _, _, _, _ => "bad-op"
   | ["oframe", maxData, fill, bw, nCh, ms10, flags, recs] =>
     match parseNat maxData, parseNat fill, parseNat bw, parseNat nCh, parseNat ms10, parseNat flags with
     | some maxData, some fill, some bw, some nCh, some ms10, some flags =>
